@@ -140,9 +140,7 @@ theorem stripWhitespace_tag {v r : Value} (h : Str.stripWhitespace v = .ok r) : 
 theorem startsWith_tag {cm : Str.CaseMap} {v s : Value} {cs : Option Value} {r : Value}
     (h : Str.startsWith cm v s cs = .ok r) : tagOf r = .boolean := by
   unfold Str.startsWith at h
-  split at h
-  · split at h <;> ok_tag h
-  · cases h
+  split at h <;> ok_tag h
 
 theorem endsWith_tag {cm : Str.CaseMap} {v s : Value} {cs : Option Value} {r : Value}
     (h : Str.endsWith cm v s cs = .ok r) : tagOf r = .boolean := by
